@@ -106,19 +106,33 @@ def _us(o):
 class TD(_real_timedelta):
     """Stand-in for ``datetime.timedelta`` bound into chartparse.sync / chartparse.time."""
 
-    def __new__(cls, days=0, seconds=0, microseconds=0, **kw):
+    def __new__(cls, days=0, seconds=0, microseconds=0, milliseconds=0, minutes=0, hours=0, weeks=0):
         if cls is not TD:
             return _real_timedelta.__new__(cls, 0)
-        if kw or days != 0:
-            raise Poison("unsupported timedelta constructor form")
+        rest = (days, microseconds, milliseconds, minutes, hours, weeks)
         if isinstance(seconds, TaggedSeconds):
-            if not (type(microseconds) is int and microseconds == 0):
-                raise Poison("seconds+microseconds")
+            # the kernel's result goes to timedelta(seconds=...) as it is (E1); integer parts may be added
+            if not all(_is_int(x) for x in rest):
+                raise Poison("timedelta(seconds=<tagged>, <non-integer parts>)")
             seconds.consumed += 1
-            return AbsTime(seconds.us)
-        if type(seconds) is int and seconds == 0:
-            return AbsTime(microseconds)
+            return AbsTime(seconds.us + _int_parts_us(days, 0, microseconds, milliseconds, minutes, hours, weeks))
+        if _is_int(seconds) and all(_is_int(x) for x in rest):
+            # integer arguments (symbolic or not): exact, by the documented normalisation
+            return AbsTime(_int_parts_us(days, seconds, microseconds, milliseconds, minutes, hours, weeks))
+        if all(type(x) in (int, float) for x in (seconds,) + rest):
+            # concrete numbers: whatever the real class makes of them
+            with untraced():
+                return AbsTime(_us(_real_timedelta(days=days, seconds=seconds, microseconds=microseconds, milliseconds=milliseconds,
+                                                   minutes=minutes, hours=hours, weeks=weeks)))
         raise Poison("timedelta(seconds=<untagged %s>)" % type(seconds).__name__)
+
+
+def _is_int(x):
+    return isinstance(x, int) and not isinstance(x, bool)
+
+
+def _int_parts_us(days, seconds, microseconds, milliseconds, minutes, hours, weeks):
+    return ((((weeks * 7 + days) * 24 + hours) * 60 + minutes) * 60 + seconds) * 10**6 + milliseconds * 1000 + microseconds
 
 
 class AbsTime(TD):
@@ -174,6 +188,33 @@ class AbsTime(TD):
 
     def total_seconds(self):
         return AbsSecs(self.us)
+
+    # the normalised fields of the real class (0 <= microseconds < 10^6, 0 <= seconds < 86400), so that
+    # code taking a time apart and putting it together again is judged on what it really computes
+    @property
+    def days(self):
+        return self.us // (86400 * 10**6)
+
+    @property
+    def seconds(self):
+        return (self.us // 10**6) % 86400
+
+    @property
+    def microseconds(self):
+        return self.us % 10**6
+
+    def __mul__(self, k):
+        if not _is_int(k):
+            raise Poison("time multiplied by a non-integer")
+        return AbsTime(self.us * k)
+
+    __rmul__ = __mul__
+
+    def __neg__(self):
+        return AbsTime(-self.us)
+
+    def __abs__(self):
+        return AbsTime(self.us if self.us >= 0 else -self.us)
 
     def __repr__(self):
         return "AbsTime(<us>)"
@@ -253,6 +294,15 @@ class TaggedSeconds(float):
         self.args = args
         self.consumed = 0
         return self
+
+    # whole seconds may be added to the kernel's result before it becomes a timedelta (exact in binary64
+    # far beyond the property's 10^6 s); anything else done to it is outside the stub's contract
+    def __add__(self, o):
+        if _is_int(o):
+            return TaggedSeconds(self.us + o * 10**6, self.args)
+        return NotImplemented
+
+    __radd__ = __add__
 
 
 # --------------------------------------------------------------------------------------------
@@ -355,6 +405,9 @@ class Clock:
         return TaggedSeconds(us, (ticks, bpm, resolution))
 
 
+_MISSING = object()
+
+
 class patched:
     """Context manager: rebind module attributes for the duration of a harness body."""
 
@@ -364,13 +417,16 @@ class patched:
 
     def __enter__(self):
         for (obj, name, val) in self.triples:
-            self.saved.append((obj, name, getattr(obj, name)))
+            self.saved.append((obj, name, getattr(obj, name, _MISSING)))
             setattr(obj, name, val)
         return self
 
     def __exit__(self, *a):
         for (obj, name, val) in reversed(self.saved):
-            setattr(obj, name, val)
+            if val is _MISSING:
+                delattr(obj, name)      # the name was a builtin seen through the module (e.g. open)
+            else:
+                setattr(obj, name, val)
         return False
 
 
